@@ -20,6 +20,26 @@ def build_harness():
                                                                                      "Source/Lib/Common/Codec/EbSystemResourceManager.h"])])
 
 
+def build_stress():
+    srcs = [os.path.join(C.VERIF, "harness", "srm_stress.c")] + [os.path.join(CODEC, f) for f in ("EbThreads.c", "EbMalloc.c", "EbLog.c")]
+    srcs = [s for s in srcs if os.path.exists(s)]
+    return C.compile_harness("srm_stress", srcs, extra=["-DC23_KEY=\"%s\"" % C.repo_hash(["Source/Lib/Common/Codec/EbSystemResourceManager.c",
+                                                                                        "Source/Lib/Common/Codec/EbSystemResourceManager.h"])])
+
+
+def run_stress(chk, sexe, configs):
+    """N producers / M consumers on the real SRM; returns (runs, objects moved, failure text or None)."""
+    moved = 0
+    for n, cfg in enumerate(configs):
+        rc, out = C.sh([sexe] + [str(x) for x in cfg], timeout=180)
+        if rc != 0 or not out.startswith("ok"):
+            return n + 1, moved, ("the REAL system resource manager violates the property under real concurrency\n"
+                                  "stress: %s\n(seed nObj nProducers nConsumers postsPerProducer serialisePosts)\noutput: %s\n"
+                                  "replay: bin/check C23 --replay <this file>\n" % (" ".join(str(x) for x in cfg), out.strip()[-400:]))
+        moved += cfg[2] * cfg[4]
+    return len(configs), moved, None
+
+
 def run_real(exe, lines, timeout=600):
     p = subprocess.run([exe, "0"], input=("\n".join(lines) + "\n").encode(), stdout=subprocess.PIPE, stderr=subprocess.PIPE, timeout=timeout)
     out = p.stdout.decode("utf-8", "replace").split("\n")
@@ -89,10 +109,8 @@ def parse_digest(line):
             d["R"] = [int(x) for x in v.split(",")] if v else []
         elif k == "B":
             d["B"] = {}
-            i = 0
-            while i + 2 < len(v) + 0 and i < len(v):
+            for i in range(0, len(v) - 2, 3):
                 d["B"][(v[i], int(v[i + 1]))] = v[i + 2]
-                i += 3
     d.setdefault("B", {})
     return d
 
@@ -162,6 +180,10 @@ def gen_sequence(rng, model, mode, nobj_max, length):
             add(1, "post %d" % (n + rng.below(2)))
             if held:
                 add(2, "inc %d %d" % (rng.choice(held), rng.choice([4294967295, 4294967294, 2147483648])))
+        if done:
+            # a finished background call already owns its object: report it before anything else happens,
+            # so that the generator's (and the oracle's) notion of "held" is exact
+            cand = [(1, "join %s %d" % sorted(done)[0])]
         tot = sum(w for w, _ in cand)
         r = rng.below(tot)
         for w, s in cand:
@@ -247,8 +269,12 @@ def oracle(ops, real):
             ren[int(w[1])] = int(w[2])
         # conservation on the real internal state: every object exactly once (a list, or a holder)
         lists = in_lists(d)
-        if sorted(lists + sorted(held)) != list(range(n)):
-            bad.append((i, "objects not conserved: in queues/fifos %s, held %s, expected each of 0..%d exactly once" % (sorted(lists), sorted(held), n - 1)))
+        acc = sorted(lists + sorted(held))
+        missing = set(range(n)) - set(acc)
+        finished_unjoined = sum(1 for v in d["B"].values() if v == "+")   # each may hold one object not yet reported
+        if len(set(acc)) != len(acc) or any(o < 0 or o >= n for o in acc) or len(missing) > finished_unjoined:
+            bad.append((i, "objects not conserved: in queues/fifos %s, held %s, finished background calls %d, expected each of 0..%d exactly once" %
+                        (sorted(lists), sorted(held), finished_unjoined, n - 1)))
         # wake-up: a really blocked thread while something is available for it
         for (sd, f), stt in d["B"].items():
             if stt != "-":
@@ -319,19 +345,19 @@ def shrink(mexe, hexe, ops, kind, budget=250):
         f, _, _, _ = evaluate(mexe, hexe, head + b)
         return f is not None and f[0] == kind
     chunk = max(1, len(body) // 2)
-    while chunk >= 1 and runs < budget:
+    while True:
         i, changed = 0, False
-        while i < len(body) and runs < budget:
+        while i < len(body):
             cand = body[:i] + body[i + chunk:]
-            if fails(cand):
+            if runs < budget and fails(cand):
                 body, changed = cand, True
             else:
                 i += chunk
-        if chunk == 1 and not changed:
-            break
-        chunk = max(1, chunk // 2) if not changed or chunk > 1 else 1
-        if chunk == 1 and changed:
-            continue
+        if chunk == 1:
+            if not changed or runs >= budget:
+                break
+        else:
+            chunk = max(1, chunk // 2)
     return head + body
 
 
@@ -365,17 +391,18 @@ def gen_cb_stream(rng, nops):
     return ops
 
 
-def run(chk, replay_ops=None):
+def run(chk, replay_ops=None, replay_stress=None):
     pr = chk.proofs(MODULE, trusted_extra=[
         "Model/Srm.lean: hand transcription of EbSystemResourceManager.c at mutex granularity (each Op = one critical section or one semaphore operation); "
         "pthread mutex/semaphore assumed sequentially consistent and atomic; one thread per EbFifo",
+        "harness/srm_stress.c: N producer / M consumer pthreads on the real SRM with a 20 s watchdog (hang = violation)",
         "harness/srm_seq.c: #includes the real EbSystemResourceManager.c, links real EbThreads.c/EbMalloc.c/EbLog.c; prints returned object / NULL / shutdown and a digest of the real "
         "rings, fifo lists, semaphore values, quit flags, live counts after every call; blocking calls run on real pthreads",
         "the svt_muxing_queue_assignation loop is treated as one atomic step (it runs entirely under the queue's lockout mutex)"])
     mexe = C.ensure_driver()
     hexe = build_harness()
     quick = chk.tier == "quick"
-    target_ops = 40000 if quick else 400000
+    target_ops = 80000 if quick else 1200000
     nobj_max = 4 if quick else 6
 
     failures = []   # (kind, text)
@@ -400,7 +427,7 @@ def run(chk, replay_ops=None):
                 params[par] = params.get(par, 0) + 1
                 prevB = {}
             opk[k] = opk.get(k, 0) + 1
-            rk = r.split(" | ")[0].split()[0]
+            rk = (r.split(" | ")[0].split() or ["?"])[0]
             resk[k + "->" + rk] = resk.get(k + "->" + rk, 0) + 1
             n_eval += 1
             dg = r.split(" | ", 1)[1] if " | " in r else ""
@@ -440,7 +467,11 @@ def run(chk, replay_ops=None):
                 "the REAL system resource manager violates the property" if fail[0] == "oracle"
                 else "model and real SRM disagree (the real outputs still satisfy the property oracle)", fail, kops, ro, kmo)))
 
-    if replay_ops is not None:
+    stress_runs = stress_moved = 0
+    stress_fail = None
+    if replay_stress is not None:
+        stress_runs, stress_moved, stress_fail = run_stress(chk, build_stress(), [replay_stress])
+    elif replay_ops is not None:
         handle(replay_ops, "replay")
     else:
         # corpus first
@@ -477,6 +508,11 @@ def run(chk, replay_ops=None):
             model.close()
         if not failures:
             handle(gen_cb_stream(chk.rng, 4000 if quick else 40000), "circbuf")
+        if not failures:
+            cfgs = [(chk.rng.below(1 << 30), chk.rng.range(1, 8), chk.rng.range(1, 4), chk.rng.range(1, 4),
+                     chk.rng.choice([2000, 10000, 30000] if quick else [10000, 50000, 150000]), chk.rng.below(2))
+                    for _ in range(6 if quick else 60)]
+            stress_runs, stress_moved, stress_fail = run_stress(chk, build_stress(), cfgs)
 
     chk.cov["evaluations"] = n_eval
     chk.cov["distinct_nontrivial"] = len(distinct)
@@ -490,6 +526,8 @@ def run(chk, replay_ops=None):
     chk.cov["calls_that_really_blocked"] = real_blocks
     chk.cov["real_wakeups_observed"] = wakes
     chk.cov["real_wakeups_by_shutdown"] = shut_wakes
+    chk.cov["stress_runs(real pthreads)"] = stress_runs
+    chk.cov["stress_objects_posted_and_consumed"] = stress_moved
     chk.cov["disagreements_checked"] = n_eval
     chk.sample({"note": "every executed line: real result + real state digest == model result + model state"})
     chk.assumptions += [
@@ -502,6 +540,8 @@ def run(chk, replay_ops=None):
     corr = [f for f in failures if f[0] == "corr"]
     if real_viol:
         chk.violation(real_viol[0][2])
+    elif stress_fail:
+        chk.violation(stress_fail, tag="stress")
     elif not pr.ok:
         chk.violation("proof obligations of %s no longer check:\n%s\nforbidden tokens: %s\n"
                       "no input found on which the real SRM violates the property (%d calls executed and checked by the oracle)\n" %
@@ -525,6 +565,9 @@ def read_ops(path):
 
 
 def replay(chk, path):
+    for line in open(path):
+        if line.startswith("stress: "):
+            return run(chk, replay_stress=tuple(int(x) for x in line[8:].split()))
     ops = read_ops(path)
     if ops:
         run(chk, replay_ops=ops)
